@@ -48,6 +48,10 @@ def tables(draw, max_n=40):
         for i in range(noff):
             r["dv0_%d" % (i + 1)] = gens.rounded(draw(gens.fl(-5, 5)), 9)
         rows.append(r)
+    # repeated periods (several linear draws per nonlinear sample, concatenated tables): ties, possibly at the median
+    for _ in range(draw(st.sampled_from([0, 0, 1, 2, n]))):
+        i_, j_ = draw(st.integers(0, n - 1)), draw(st.integers(0, n - 1))
+        rows[j_]["P"] = rows[i_]["P"]
     return {"n": n, "poly": poly, "noff": noff, "units": un, "rows": rows,
             "logprobs": draw(st.booleans()), "t_ref": draw(st.one_of(st.none(), gens.fl(50000.0, 59000.0).map(lambda x: gens.rounded(x, 9)))),
             "phase": gens.rounded(draw(gens.fl(-4 * math.pi, 4 * math.pi)), 9), "phase_unit": draw(st.sampled_from(og.ANG_UNITS)),
@@ -184,8 +188,8 @@ def body_factory(ctx):
             if meta_of(r) != m0 or list(r.par_names) != allnames or len(r) != 1:
                 raise Violation("%s() lost metadata / columns" % fname, before=m0, after=meta_of(r))
             for nm in allnames:
-                if not r[nm].unit.is_equivalent(units0[nm]):
-                    raise Violation("%s() changed the unit of %s" % (fname, nm))
+                if r[nm].unit != units0[nm]:
+                    raise Violation("%s() changed the unit of %s" % (fname, nm), table_unit=str(units0[nm]), result_unit=str(r[nm].unit))
                 want = f(np.asarray(s[nm].value, dtype=float))
                 atol = 1e-5 * float(np.max(np.abs(np.asarray(s[nm].value, dtype=float)))) if nm in f4 else 1e-300
                 if not np.isclose(float(r[nm].to_value(units0[nm])[0]), want, rtol=1e-4 if nm in f4 else 1e-10, atol=atol):
